@@ -46,7 +46,7 @@ func init() {
 func stdioEnumerate(rng *rand.Rand, nOffsets int) []scase {
 	var out []scase
 	for _, f := range []string{"kill9", "sigterm", "exit", "sigstop"} {
-		for _, p := range []int{1, 2, 8} {
+		for _, p := range pendings {
 			out = append(out, scase{Fault: f, Point: "pending", Pending: p})
 		}
 		if f != "sigstop" {
@@ -68,12 +68,12 @@ func stdioEnumerate(rng *rand.Rand, nOffsets int) []scase {
 			fr = append(fr, 0.02+0.96*rng.Float64())
 		}
 		for k, f := range fr {
-			out = append(out, scase{Fault: s.fault, Point: "mid-response", Pending: []int{1, 2, 8}[k%3], Script: s.script, Frac: f})
+			out = append(out, scase{Fault: s.fault, Point: "mid-response", Pending: pendings[k%len(pendings)], Script: s.script, Frac: f})
 		}
 	}
 	for _, f := range []string{"cancel", "deadline"} {
 		for _, pt := range []string{"pre-call", "handler"} {
-			for _, p := range []int{1, 2, 8} {
+			for _, p := range pendings {
 				out = append(out, scase{Fault: f, Point: pt, Pending: p})
 			}
 		}
